@@ -84,6 +84,7 @@ func c20Prop(rt *rapid.T, c *vlib.Case, t *testing.T) {
 	}
 	r := &vsRun{rt: rt, c: c, cfg: cfg, open: map[string]bool{}, tr: vsGenTraffic(rt), kindsDelivered: map[string]bool{}, lastDefs: map[string]string{}}
 	r.views[0], r.views[1] = &vsView{}, &vsView{}
+	r.hangInconclusive = true
 	c.Render(func() any { return map[string]any{"traffic": r.tr.brief(), "history": r.hist} })
 	e, err := veStart(d, true)
 	if err != nil {
@@ -215,10 +216,9 @@ func c20Prop(rt *rapid.T, c *vlib.Case, t *testing.T) {
 	}
 	c.LabelIf(fed, "pcap-over-ip-endpoint-fed")
 	if err := e.waitIdle(60 * time.Second); err != nil {
+		// not a data race: the case is set aside (counted in the evidence), see DESIGN section 7
 		close(stop)
-		closeListener()
-		wg.Wait()
-		r.fatalf("%v", err)
+		r.inconclusive("background-work-did-not-settle", err.Error())
 	}
 	close(stop)
 	closeListener()
